@@ -2,7 +2,6 @@ package props
 
 import (
 	"fmt"
-	"go/constant"
 	"go/token"
 	"sort"
 	"strings"
@@ -217,8 +216,7 @@ func checkC19(r *core.Run) {
 	lg("sequence", "a snapshot whose two sequence numbers differ is invalid (torn write)", an.MatchCmpValues(token.NEQ, []string{"call:(encoding/binary.littleEndian).Uint32", "const:4"}, []string{"call:(encoding/binary.littleEndian).Uint32", "const:8"}))
 	// higher sequence wins
 	ln := q("(*QdbIndex).loadneweridx")
-	c19NewerWins(r, p, ln)
-	c19ChosenSnapshot(r, p, ln)
+	c19SnapshotChoice(r, p, ln)
 	ll := q("(*QdbIndex).loadlog")
 	guardOb(r, p, "R-C19-load", "log/sequence", "a log whose sequence differs from the snapshot's is discarded", an.GuardSpec{Fn: ll, Fail: an.FailKind{Kind: "any-return"}, Match: func(iff *ssa.If) (bool, bool) {
 		x, y, rel, ok := an.CondCmp(iff.Cond)
@@ -677,197 +675,6 @@ func nearestDomInstr(b *ssa.BasicBlock, pick func(ssa.Instruction) bool) ssa.Ins
 	return nil
 }
 
-// c19ChosenSnapshot: the loader returns the contents of one of the two snapshot files.  Everything it
-// remembers about that choice has to describe the same file: the sequence number (a log is accepted later
-// only if it carries exactly this number), the file index (the next snapshot goes to the other name) and the
-// file that is removed (the one not chosen).
-func c19ChosenSnapshot(r *core.Run, p *core.Program, ln *ssa.Function) {
-	const rule = "R-C19-load"
-	if ln == nil {
-		r.Fail(rule, "chosen-snapshot", "-", "loadneweridx not found")
-		return
-	}
-	const callPfx = "lib/others/qdb.read_and_check_file((param#0.IdxFilePath + \""
-	n := 0
-	var bad []string
-	check := func(res ssa.Value, from *ssa.BasicBlock, pos string) {
-		if k, ok := res.(*ssa.Const); ok && k.Value == nil {
-			return
-		}
-		e := an.Expr(res)
-		if !strings.HasPrefix(e, callPfx) || !strings.HasSuffix(e, "\"))#1") {
-			bad = append(bad, "the data returned at "+pos+" ("+clip(e, 80)+") is not the contents of one of the two snapshot files")
-			return
-		}
-		n++
-		k := e[len(callPfx) : len(e)-len("\"))#1")]
-		seq := nearestDomInstr(from, func(i ssa.Instruction) bool {
-			st, ok := i.(*ssa.Store)
-			return ok && strings.HasSuffix(an.Expr(st.Addr), "param#0.VersionSequence")
-		})
-		if seq == nil || an.Expr(seq.(*ssa.Store).Val) != callPfx+k+"\"))#0" {
-			got := "nothing"
-			if seq != nil {
-				got = clip(an.Expr(seq.(*ssa.Store).Val), 90)
-			}
-			bad = append(bad, "returning file "+k+" at "+pos+" the remembered sequence is "+got+", not the sequence read from file "+k)
-		}
-		di := nearestDomInstr(from, func(i ssa.Instruction) bool {
-			st, ok := i.(*ssa.Store)
-			return ok && strings.HasSuffix(an.Expr(st.Addr), "param#0.DatfileIndex")
-		})
-		if di == nil || an.Expr(di.(*ssa.Store).Val) != k {
-			bad = append(bad, "returning file "+k+" at "+pos+" the remembered file index is not "+k)
-		}
-		rm := nearestDomInstr(from, func(i ssa.Instruction) bool {
-			c, ok := i.(ssa.CallInstruction)
-			return ok && an.IsCall(c, "os.Remove")
-		})
-		if rm != nil && an.Expr(rm.(ssa.CallInstruction).Common().Args[0]) == "(param#0.IdxFilePath + \""+k+"\")" {
-			bad = append(bad, "returning file "+k+" at "+pos+" the file removed is the chosen one")
-		}
-	}
-	for _, b := range ln.Blocks {
-		ret, ok := b.Instrs[len(b.Instrs)-1].(*ssa.Return)
-		if !ok || len(ret.Results) != 1 {
-			continue
-		}
-		pos := p.Pos(ret.Pos())
-		if phi, isPhi := ret.Results[0].(*ssa.Phi); isPhi && phi.Block() == b {
-			for i, e := range phi.Edges {
-				check(e, b.Preds[i], pos)
-			}
-		} else {
-			check(ret.Results[0], b, pos)
-		}
-	}
-	if n < 2 {
-		bad = append(bad, fmt.Sprintf("only %d return(s) of a snapshot's contents found", n))
-	}
-	sort.Strings(bad)
-	r.Check(len(bad) == 0, rule, "chosen-snapshot", p.Pos(ln.Pos()), fmt.Sprintf("%d returns of a snapshot's contents: the remembered sequence and file index belong to the returned file, the other file is the one removed", n), strings.Join(bad, "; "))
-}
-
-// c19NewerWins: which of the two snapshot files the loader returns, decided for every combination of
-// (file 0 valid, file 1 valid, sign of the wrap-around difference of their sequence numbers) by following
-// the function's branches with those comparisons fixed: a single valid file is taken; of two valid files
-// the one with the higher sequence.
-func c19NewerWins(r *core.Run, p *core.Program, ln *ssa.Function) {
-	const rule = "R-C19-load"
-	if ln == nil {
-		r.Fail(rule, "newer-snapshot-wins", "-", "loadneweridx not found")
-		return
-	}
-	const callPfx = "lib/others/qdb.read_and_check_file((param#0.IdxFilePath + \""
-	fileOf := func(v ssa.Value, res string) string {
-		e := an.Expr(v)
-		if strings.HasPrefix(e, callPfx) && strings.HasSuffix(e, "\"))#"+res) {
-			return e[len(callPfx) : len(e)-len("\"))#"+res)]
-		}
-		return ""
-	}
-	isNil := func(v ssa.Value) bool { c, ok := v.(*ssa.Const); return ok && c.Value == nil }
-	type cmp struct {
-		v    *ssa.BinOp
-		file string // validity test of this file; "" = sequence comparison
-		neg  bool   // sequence difference is s1-s0
-	}
-	var cmps []cmp
-	an.Instrs(ln, func(i ssa.Instruction) {
-		bo, ok := i.(*ssa.BinOp)
-		if !ok {
-			return
-		}
-		switch bo.Op {
-		case token.EQL, token.NEQ:
-			if isNil(bo.Y) {
-				if k := fileOf(bo.X, "1"); k != "" {
-					cmps = append(cmps, cmp{bo, k, false})
-				}
-			}
-		case token.LSS, token.LEQ, token.GTR, token.GEQ:
-			if k, isC := an.ConstOf(bo.Y); isC && k.Sign() == 0 {
-				if sub, isSub := c17StripConv(bo.X).(*ssa.BinOp); isSub && sub.Op == token.SUB {
-					a, b := fileOf(sub.X, "0"), fileOf(sub.Y, "0")
-					if a == "0" && b == "1" {
-						cmps = append(cmps, cmp{bo, "", false})
-					} else if a == "1" && b == "0" {
-						cmps = append(cmps, cmp{bo, "", true})
-					}
-				}
-			}
-		}
-	})
-	nseq := 0
-	for _, c := range cmps {
-		if c.file == "" {
-			nseq++
-			if cv, isConv := c.v.X.(*ssa.Convert); !isConv || an.TypeName(cv.Type()) != "int32" {
-				r.Fail(rule, "newer-snapshot-wins", p.Pos(c.v.Pos()), "the sequence numbers are not compared through their signed 32-bit difference (wrap-around compare)")
-				return
-			}
-		}
-	}
-	if nseq == 0 {
-		r.Fail(rule, "newer-snapshot-wins", p.Pos(ln.Pos()), "the loader does not choose between two valid snapshots by their sequence numbers")
-		return
-	}
-	var bad []string
-	cases := 0
-	for _, v0 := range []bool{true, false} {
-		for _, v1 := range []bool{true, false} {
-			for _, diff := range []int64{-1, 0, 1} { // s0 - s1 (as int32)
-				if !v0 && !v1 {
-					continue
-				}
-				if v0 && v1 && diff == 0 {
-					continue // two valid files never carry the same sequence: either choice is fine
-				}
-				want := "0"
-				if !v0 || (v1 && diff < 0) {
-					want = "1"
-				}
-				env := an.PEnv{}
-				for _, c := range cmps {
-					var val bool
-					if c.file != "" {
-						valid := v0
-						if c.file == "1" {
-							valid = v1
-						}
-						val = !valid == (c.v.Op == token.EQL)
-					} else {
-						d := diff
-						if c.neg {
-							d = -d
-						}
-						val = constant.Compare(constant.MakeInt64(d), c.v.Op, constant.MakeInt64(0))
-					}
-					env[c.v] = constant.MakeBool(val)
-				}
-				cases++
-				got := map[string]bool{}
-				for b := range an.PReach(ln.Blocks[0], env, nil) {
-					if ret, ok := b.Instrs[len(b.Instrs)-1].(*ssa.Return); ok && len(ret.Results) == 1 {
-						if isNil(ret.Results[0]) {
-							got["nothing"] = true
-						} else if k := fileOf(ret.Results[0], "1"); k != "" {
-							got[k] = true
-						} else {
-							got["?"] = true
-						}
-					}
-				}
-				if g := an.TagList(got); g != want {
-					bad = append(bad, fmt.Sprintf("file 0 valid=%v, file 1 valid=%v, sequence difference %+d: the loader returns file %s, expected file %s", v0, v1, diff, g, want))
-				}
-			}
-		}
-	}
-	sort.Strings(bad)
-	r.Check(len(bad) == 0, rule, "newer-snapshot-wins", p.Pos(ln.Pos()), fmt.Sprintf("%d combinations of validity and sequence order: a single valid file is used, of two the one with the higher sequence (wrap-around compare)", cases), strings.Join(bad, "; "))
-}
-
 // c19CleanupSpares: removing stale data files never touches a file that is still needed: every removal in
 // the clean-up walk is conditional on the file's sequence being different from the one the store currently
 // appends to (which may hold no indexed record yet - right after a defragmentation of an empty store) and on
@@ -911,4 +718,152 @@ func c19CleanupSpares(r *core.Run, p *core.Program) {
 	}
 	sort.Strings(bad)
 	r.Check(len(bad) == 0 && n >= 1, rule, key, p.Pos(fn.Pos()), fmt.Sprintf("%d removal(s), each for a sequence that is neither current nor referenced", n), strings.Join(bad, "; "))
+}
+
+// c19SnapshotChoice: which snapshot file the loader takes, and what it remembers about it, read off the
+// function's paths (helpers of the package interpreted inline, so the grouping of statements into helper
+// functions and the nesting of the branches do not matter).  On every path:
+//   - nothing is returned only when neither file is valid;
+//   - otherwise the contents of file K are returned, the remembered sequence is the one read from file K, the
+//     remembered file index is K and exactly the other file is removed;
+//   - K is the single valid file, or of two valid files the one with the higher sequence (compared through
+//     the signed 32-bit difference).
+func c19SnapshotChoice(r *core.Run, p *core.Program, ln *ssa.Function) {
+	const rule = "R-C19-load"
+	if ln == nil {
+		r.Fail(rule, "chosen-snapshot", "-", "loadneweridx not found")
+		return
+	}
+	ti := an.NewTermInterp(p, an.TermCfg{MaxPaths: 256, ParamNames: []string{"idx"}, Inline: func(f *ssa.Function) bool {
+		n := core.FuncName(f)
+		return strings.Contains(n, "lib/others/qdb.") && !strings.HasSuffix(n, ".read_and_check_file")
+	}})
+	paths := ti.Run(ln)
+	if ti.Aborted != "" || len(paths) == 0 {
+		r.Fail(rule, "chosen-snapshot", p.Pos(ln.Pos()), "the loader's paths could not be enumerated: "+ti.Aborted)
+		return
+	}
+	file := func(k string) string { return `+(const:"` + k + `",in:idx.IdxFilePath)` }
+	data := func(k string) string { return "lib/others/qdb.read_and_check_file.r1(" + file(k) + ")" }
+	seq := func(k string) string { return "lib/others/qdb.read_and_check_file.r0(" + file(k) + ")" }
+	var badC, badN []string
+	nret := 0
+	for pi, pr := range paths {
+		if len(pr.Ret) != 1 {
+			continue
+		}
+		// facts of this path: validity of each file, sign of s0-s1
+		valid := map[string]*bool{}
+		var diffOK func(d int64) bool
+		wrapOK := true
+		for i, c := range pr.CondT {
+			if pr.CondNeg[i] || len(c.Args) != 2 {
+				continue
+			}
+			a, b := c.Args[0].String(), c.Args[1].String()
+			for _, k := range []string{"0", "1"} {
+				if a == data(k) && b == "nil" && (c.Op == "==" || c.Op == "!=") {
+					v := c.Op == "!="
+					valid[k] = &v
+				}
+			}
+			for sgn, pair := range map[int64][2]string{1: {seq("0"), seq("1")}, -1: {seq("1"), seq("0")}} {
+				d32 := "conv:int32(-(" + pair[0] + "," + pair[1] + "))"
+				plain := "-(" + pair[0] + "," + pair[1] + ")"
+				if b != "const:0" || (a != d32 && a != plain) {
+					continue
+				}
+				if a == plain {
+					wrapOK = false
+				}
+				op, sg := c.Op, sgn
+				prev := diffOK
+				diffOK = func(d int64) bool {
+					if prev != nil && !prev(d) {
+						return false
+					}
+					x := d * sg
+					switch op {
+					case "<":
+						return x < 0
+					case "<=":
+						return x <= 0
+					case ">":
+						return x > 0
+					case ">=":
+						return x >= 0
+					case "==":
+						return x == 0
+					case "!=":
+						return x != 0
+					}
+					return true
+				}
+			}
+		}
+		ret := pr.Ret[0].String()
+		got := ""
+		switch ret {
+		case "nil", "zero":
+			got = "nothing"
+		case data("0"):
+			got = "0"
+		case data("1"):
+			got = "1"
+		default:
+			badC = append(badC, fmt.Sprintf("path %d returns %s, which is not the contents of one of the two files", pi, clip(ret, 80)))
+			continue
+		}
+		nret++
+		if !wrapOK {
+			badN = append(badN, "the sequence numbers are not compared through their signed 32-bit difference (wrap-around compare)")
+		}
+		// every assignment of the unknowns that this path admits must expect what the path returns
+		for _, v0 := range []bool{true, false} {
+			for _, v1 := range []bool{true, false} {
+				if (valid["0"] != nil && *valid["0"] != v0) || (valid["1"] != nil && *valid["1"] != v1) {
+					continue
+				}
+				for _, d := range []int64{-1, 1} {
+					if diffOK != nil && !diffOK(d) {
+						continue
+					}
+					want := "nothing"
+					switch {
+					case v0 && (!v1 || d > 0):
+						want = "0"
+					case v1:
+						want = "1"
+					}
+					if want != got {
+						badN = append(badN, fmt.Sprintf("file 0 valid=%v, file 1 valid=%v, sequence difference %+d: the loader returns %s, expected %s", v0, v1, d, got, want))
+					}
+				}
+			}
+		}
+		if got == "nothing" {
+			continue
+		}
+		other := map[string]string{"0": "1", "1": "0"}[got]
+		if t := pr.Heap["p:idx.VersionSequence"]; t == nil || t.String() != seq(got) {
+			badC = append(badC, "returning file "+got+" the remembered sequence is not the one read from file "+got)
+		}
+		if t := pr.Heap["p:idx.DatfileIndex"]; t == nil || t.String() != "const:"+got {
+			badC = append(badC, "returning file "+got+" the remembered file index is not "+got)
+		}
+		var removed []string
+		for _, c := range pr.Calls {
+			if c.Op == "os.Remove" && len(c.Args) == 1 {
+				removed = append(removed, c.Args[0].String())
+			}
+		}
+		if len(removed) != 1 || removed[0] != file(other) {
+			badC = append(badC, "returning file "+got+" the files removed are ["+strings.Join(removed, " ")+"], expected exactly file "+other)
+		}
+	}
+	sort.Strings(badC)
+	sort.Strings(badN)
+	badC, badN = dedupStrings(badC), dedupStrings(badN)
+	r.Check(len(badC) == 0 && nret >= 3, rule, "chosen-snapshot", p.Pos(ln.Pos()), fmt.Sprintf("%d paths: the remembered sequence and file index belong to the returned file, the other file is the one removed", nret), strings.Join(badC, "; "))
+	r.Check(len(badN) == 0 && nret >= 3, rule, "newer-snapshot-wins", p.Pos(ln.Pos()), "a single valid file is used, of two the one with the higher sequence (wrap-around compare), nothing only when neither is valid", strings.Join(badN, "; "))
 }
